@@ -2,6 +2,7 @@ package props
 
 import (
 	"fmt"
+	"strings"
 
 	"verif/cells"
 	"verif/drv"
@@ -143,6 +144,25 @@ func C04(run *report.Run) {
 							states = append(states, BState{ID: id, Attrs: map[string]string{"fam": "sibling", "role": role, "by": overrider}, Gen: &genrun.Job{Spec: s.YAML()}, Prop: "C04", Payload: pl})
 						}
 					}
+				}
+			}
+		}
+	}
+	// header and query NAMES of several shapes (capitals inside a segment, all lower case, digits, one segment):
+	// the name as written is what the server must read
+	for _, n := range []string{"X-API-Key", "X-Request-ID", "ETag", "x-lower-case", "X-RateLimit-Limit", "X-B3-TraceId", "Accept-Language", "page_size", "filter.name", "Q"} {
+		for _, in := range []string{"header", "query"} {
+			if in == "header" && strings.ContainsAny(n, "_.") {
+				continue
+			}
+			for _, k := range []string{"int32", "string"} {
+				for _, req := range []bool{false, true} {
+					s, _, op := cells.Base()
+					tf := leafTypes[k]
+					op.Params = []*spec.Param{{Name: n, In: in, Required: req, Schema: spec.TF(tf[0], tf[1])}}
+					id := fmt.Sprintf("paramname[in=%s,name=%s,kind=%s,req=%v]", in, n, k, req)
+					pl := &drv.ParamPayload{State: id, Method: "GET", Path: "/p", Params: []drv.ParamDecl{{Name: n, In: in, Required: req, Type: tf[0], Format: tf[1]}}}
+					states = append(states, BState{ID: id, Attrs: map[string]string{"fam": "paramname", "name": n, "in": in}, Gen: &genrun.Job{Spec: s.YAML()}, Prop: "C04", Payload: pl})
 				}
 			}
 		}
